@@ -233,10 +233,14 @@ theorem c09_flat_shape_returns (T : Table) (k : LockKind) (fuel m : Nat) (h : fl
     (ch : List Bool) : ∃ ch', execM T k fuel 0 m ch = .ret ch' :=
   flat_returns T k fuel m h ch
 
-/-- `record_error` is flat in the current source, `tick` is not -/
-example : (∃ m, genTable.indexOf "record_error" = some m ∧ flatM genTable genTable.length m = true) ∧
-    (∃ m, genTable.indexOf "tick" = some m ∧ flatM genTable genTable.length m = false) :=
-  ⟨⟨7, by decide, by decide⟩, ⟨6, by decide, by decide⟩⟩
+/-- a flat shape under a non-reentrant lock: `a` takes the lock and calls a lock-free helper, `b` calls `a` outside
+    any region -/
+private def flatTable : Table :=
+  [⟨"_h", false, 0, []⟩, ⟨"a", true, 0, [.region [0]]⟩, ⟨"b", true, 0, [.call 1, .region []]⟩]
+
+/-- the hypothesis of `c09_flat_shape_returns` is satisfiable (and the pinned `tick` shape does not satisfy it) -/
+example : flatM flatTable 3 2 = true ∧ flatM pinnedTable 2 1 = false ∧
+    callPublic flatTable .lock 2 [] = .ret [] := by decide
 
 /-- The shape the pinned tree had — `threading.Lock()` and `tick` calling `start` inside its own region — is
     stuck: the first tick of a never-started lifecycle waits forever for the lock it holds; the lock-event path
@@ -246,12 +250,6 @@ theorem c09_pinned_tick_self_deadlock_witness :
     callPublic pinnedTable .lock 1 [] = .blocked ∧
     lockRun .lock 0 (step ⟨10, 3, true, none, none⟩ (init ⟨10, 3, true, none, none⟩) (.tick 1)).lock = false ∧
     callPublic pinnedTable .rlock 1 [] = .ret [] := by decide
-
-/-- The current shapes would still be stuck under a non-reentrant lock (`tick` takes the lock `start` needs):
-    the repair is the lock kind, and the extracted kind is what `c09_every_call_returns` depends on. -/
-theorem c09_current_shape_needs_reentrant_lock_witness :
-    ∃ m, genTable.indexOf "tick" = some m ∧ callPublic genTable .lock m [] = .blocked := by
-  exact ⟨6, by decide, by decide⟩
 
 /-! ## Non-vacuity: concrete histories meeting the hypotheses -/
 
